@@ -44,7 +44,7 @@ FEATURES: Dict[str, Dict[str, List[int]]] = {
     "not": {"bool": [5]}, "has": {"bool": [6]}, "macro_bool": {"bool": [7, 8]},
     "strfn": {"bool": [9]}, "matches": {"bool": [9]}, "in": {"bool": [10]}, "streq": {"bool": [11]},
     "concat": {"str": [0], "list": [3]}, "dyn": {"list": [6]}, "string_conv": {"str": [1]}, "listlit": {"list": [0]},
-    "map": {"list": [1]}, "filter": {"list": [2]}, "duration": {"bool": [13]},
+    "map": {"list": [1]}, "filter": {"list": [2]}, "duration": {"bool": [13]}, "ts_accessor": {"int": [11]},
     # not a construct but a preference among names: the package-relative spellings (var())
     "pkgname": {"int": [0, 1, 2], "bool": [0, 1, 2]},
 }
@@ -146,6 +146,18 @@ class ExprGen:
             return f"{h}({self.int_(d - 1)})" if r.random() < 0.5 else f"({self.int_(d - 1)}).{h}()"
         if k == 10:
             return f"int({self.str_lit_num()})"
+        if k == 11:
+            # timestamp accessors with a zone argument: the zone texts come from a small pool whose
+            # members differ only in sign / spelling, so that two evaluations of one history (or two
+            # threads) use near-identical zone texts (a memo keyed too coarsely shows as a wrong field)
+            acc = r.choice(["getHours", "getDate", "getDayOfMonth", "getDayOfWeek", "getDayOfYear",
+                            "getFullYear", "getMonth", "getMinutes", "getSeconds", "getHours"])
+            mags = ["05:00", "02:30", "13:00", "00:45"]
+            mag = mags[(r.randrange(len(mags)) + self.salt) % len(mags)] if r.random() < 0.3 else mags[0]
+            zone = r.choice([f'"+{mag}"', f'"-{mag}"', f'"{mag}"', f'"-{mag}"', f'"+{mag}"', '"UTC"',
+                             '"America/New_York"', '"Asia/Tokyo"', ""])
+            day = 1 + (self.salt + r.randrange(3)) % 27
+            return f'timestamp("2009-02-{day:02d}T23:31:30Z").{acc}({zone})'
         return f"({self.int_(d - 1)} + {self.const()})"
 
     def str_lit_num(self) -> str:
